@@ -10,6 +10,10 @@
 (* real naga and lets TLC judge the observed artefacts against             *)
 (* Bindings!Exp (BindingsTrace.tla).                                       *)
 (*                                                                         *)
+(* The ORDER in which the attributes of a declaration are written (@group /  *)
+(* @binding; @builtin / @invariant; @location / @blend_src / @interpolate)  *)
+(* is a generator choice too (field rev); no rule of Bindings.tla reads it. *)
+(*                                                                         *)
 (* Exactly one attribute argument per module (the oddAt-th one, counted in *)
 (* declaration order) may be spelled in a form other than a plain decimal  *)
 (* literal, so that a misreading of that form is attributable.             *)
@@ -32,6 +36,8 @@ CONSTANTS Budgets,      \* set of [g, h, e, p, m, u]: upper bounds of one behavi
           OddAts,       \* which attribute occurrence is spelled oddly (0 = none)
           Forms,        \* the odd spellings
           WgSizes,      \* workgroup sizes <<x, y, z, n>> (n = number of arguments written)
+          Orders,       \* attribute orders that may be written (subset of BOOLEAN; FALSE = @group @binding, @builtin @invariant,
+                        \* @location @blend_src @interpolate; TRUE = the reverse order) - WGSL gives the order no meaning
           Rand          \* FALSE: every choice is enumerated (exhaustive runs); TRUE: data choices (kind, group, binding, IO,
                         \* use) are drawn with RandomElement, seeded by -seed, and only the structure is branched on
 
@@ -67,12 +73,13 @@ FormAt(i) == IF attrN + i = oddAt THEN oddForm ELSE "plain"
 M == [globals |-> globals, helpers |-> helpers, eps |-> eps]
 
 \* ---------------------------------------------------------------- globals
-AddGlobal(kind, g, b) ==
+AddGlobal(kind, g, b, rv) ==
   /\ phase = "globals" /\ Len(globals) < MaxGlobals
   /\ LET res == kind \notin {"workgroup", "private"} IN
      /\ globals' = Append(globals, [name |-> "res" \o L[Len(globals) + 1], kind |-> kind,
                                     group |-> IF res THEN g ELSE 0, binding |-> IF res THEN b ELSE 0,
-                                    gform |-> IF res THEN FormAt(1) ELSE "plain", bform |-> IF res THEN FormAt(2) ELSE "plain"])
+                                    gform |-> IF res THEN FormAt(1) ELSE "plain", bform |-> IF res THEN FormAt(2) ELSE "plain",
+                                    rev |-> res /\ rv])
      /\ attrN' = IF res THEN attrN + 2 ELSE attrN
   /\ UNCHANGED <<helpers, eps, cur, phase, oddAt, oddForm, budget>>
 
@@ -153,10 +160,14 @@ NameOf(dir) == IF dir = "in" THEN "qin" \o L[Len(CurIns) + 1] ELSE "qout" \o L[L
 
 MkBuiltin(dir, b, inv) ==
   [name |-> NameOf(dir), ty |-> BuiltinTy(b), b |-> "builtin", builtin |-> b, loc |-> 0, lform |-> "plain",
-   interp |-> "none", sampling |-> "none", invariant |-> inv, blend |-> -1, blform |-> "plain"]
+   interp |-> "none", sampling |-> "none", invariant |-> inv, blend |-> -1, blform |-> "plain", rev |-> FALSE]
 MkLoc(dir, n, ty, ip, bl) ==
   [name |-> NameOf(dir), ty |-> ty, b |-> "location", builtin |-> "", loc |-> n, lform |-> FormAt(1),
-   interp |-> ip[1], sampling |-> ip[2], invariant |-> FALSE, blend |-> bl, blform |-> IF bl >= 0 THEN FormAt(2) ELSE "plain"]
+   interp |-> ip[1], sampling |-> ip[2], invariant |-> FALSE, blend |-> bl, blform |-> IF bl >= 0 THEN FormAt(2) ELSE "plain", rev |-> FALSE]
+
+\* the orders in which the attributes of an IO may be written: only an IO with a second attribute has two
+OrdersOf(io) == IF io.invariant \/ io.blend >= 0 \/ io.interp # "none" THEN Orders ELSE {FALSE}
+WithOrders(X) == UNION {{[io EXCEPT !.rev = r] : r \in OrdersOf(io)} : io \in X}
 
 LocTy(n) == LocTys[((n + Len(eps)) % Len(LocTys)) + 1]
 
@@ -180,7 +191,7 @@ ValidIO(dir, io) ==
   /\ ((io.b = "location" /\ cur.stage = "fragment" /\ dir = "out") => (io.loc < 8 /\ ~HasBlend))
   /\ (cur.stage = "compute" => io.b = "builtin")
 
-IOSet(dir) == {io \in IOChoices(dir) : ValidIO(dir, io)}
+IOSet(dir) == WithOrders({io \in IOChoices(dir) : ValidIO(dir, io)})
 IOPick(X) == Choose2({io \in X : io.b = "builtin"}, {io \in X : io.b = "location"})
 
 AttrCount(io) == IF io.b = "location" THEN (IF io.blend >= 0 THEN 2 ELSE 1) ELSE 0
@@ -245,7 +256,8 @@ AddBlendPair == /\ phase = "rmembers" /\ cur.stage = "fragment" /\ Len(cur.resul
                 /\ LET a == MkLoc("out", 0, "vec4f", <<"none", "none">>, 0)
                        b == [MkLoc("out", 0, "vec4f", <<"none", "none">>, 1) EXCEPT !.name = "qout" \o L[Len(CurOuts) + 2],
                              !.lform = FormAt(3), !.blform = FormAt(4)]
-                   IN cur' = [cur EXCEPT !.result.ios = @ \o <<a, b>>]
+                   IN \E ra \in Choose(Dyn(Orders)), rb \in Choose(Dyn(Orders)) :
+                        cur' = [cur EXCEPT !.result.ios = @ \o <<[a EXCEPT !.rev = ra], [b EXCEPT !.rev = rb]>>]
                 /\ attrN' = attrN + 4
                 /\ UNCHANGED <<globals, helpers, eps, phase, oddAt, oddForm, budget>>
 
@@ -254,7 +266,8 @@ EndStructResult ==
   /\ phase = "rmembers"
   /\ (Len(cur.result.ios) >= MaxMembers \/ IOSet("out") = {} \/ (~Rand /\ cur.result.ios # <<>>))
   /\ LET needPos == cur.stage = "vertex" /\ ~\E io \in Range(CurOuts) : io.builtin = "position" IN
-     IF needPos THEN \E inv \in Choose(Dyn(BOOLEAN)) : cur' = [cur EXCEPT !.result.ios = Append(@, MkBuiltin("out", "position", inv))]
+     IF needPos THEN \E inv \in Choose(Dyn(BOOLEAN)), rv \in Choose(Dyn(Orders)) :
+                       cur' = [cur EXCEPT !.result.ios = Append(@, [MkBuiltin("out", "position", inv) EXCEPT !.rev = inv /\ rv])]
      ELSE cur.result.ios # <<>> /\ cur' = cur
   /\ phase' = "body"
   /\ UNCHANGED <<globals, helpers, eps, attrN, oddAt, oddForm, budget>>
@@ -276,7 +289,7 @@ Finish == /\ phase = "entries" /\ Len(eps) >= MaxEntries
           /\ UNCHANGED <<globals, helpers, eps, cur, attrN, oddAt, oddForm, budget>>
 
 Next ==
-  \/ \E k \in Choose(Dyn(Kinds)), g \in Choose(Dyn(Groups)), b \in Choose(Dyn(Binds)) : AddGlobal(k, g, b)
+  \/ \E k \in Choose(Dyn(Kinds)), g \in Choose(Dyn(Groups)), b \in Choose(Dyn(Binds)), rv \in Choose(Dyn(Orders)) : AddGlobal(k, g, b, rv)
   \/ EndGlobals
   \/ BeginHelper \/ HelperBody \/ EndHelper \/ EndHelpers
   \/ \E s \in Stages, w \in Choose(Dyn(WgSizes)) : BeginEntry(s, w)
